@@ -1,6 +1,7 @@
 """C03 State-passing model interface is pure and equivalent to direct assignment (Engine B)."""
 import copy
 import dataclasses
+import re
 from typing import NamedTuple
 
 import jax
@@ -190,6 +191,24 @@ class DCState:
     scale: jnp.ndarray
 
 
+@dataclasses.dataclass
+class DCLate:
+    """dataclass state with a field that is not a constructor argument (set after construction) and one rewritten by __post_init__"""
+    x: jnp.ndarray
+    loc: jnp.ndarray
+    scale: jnp.ndarray = dataclasses.field(init=False, default=1.0)
+    calls: int = 0
+
+    def __post_init__(self):
+        self.calls = self.calls + 1
+
+
+def _dclate(x, l, s):
+    st = DCLate(x, l)
+    st.scale = s
+    return st
+
+
 class NTState(NamedTuple):
     x: jnp.ndarray
     loc: jnp.ndarray
@@ -207,6 +226,7 @@ def simple_interfaces(chk):
     lp_dict = lambda s: -0.5 * ((s["x"] - s["loc"]) / s["scale"]) ** 2 - jnp.log(s["scale"])
     cases = {"DictInterface": (gs.DictInterface(lp_dict), lambda x, l, s: {"x": x, "loc": l, "scale": s}, lambda st, k: st[k]),
              "DataclassInterface": (gs.DataclassInterface(lp_attr), lambda x, l, s: DCState(x, l, s), getattr),
+             "DataclassInterface/init=False field": (gs.DataclassInterface(lp_attr), _dclate, getattr),
              "NamedTupleInterface": (gs.NamedTupleInterface(lp_attr), lambda x, l, s: NTState(x, l, s), getattr)}
     obs = []
     for nm, (it, mkstate, get) in cases.items():
@@ -214,9 +234,11 @@ def simple_interfaces(chk):
             st = mkstate(x, l, s)
             new = it.update_state({"x": nx, "loc": nl}, st)
             again = it.update_state({"x": nx, "loc": nl}, st)
+            extra = [jnp.asarray(float(new.calls - st.calls))] if isinstance(st, DCLate) else []     # a non-position attribute must come through unchanged
             return dict(new=[get(new, k) for k in ("x", "loc", "scale")], again=[get(again, k) for k in ("x", "loc", "scale")], old=[get(st, k) for k in ("x", "loc", "scale")],
-                        ext=it.extract_position(["x", "loc"], new), lp=it.log_prob(new))
-        names = [f"{nm}_{v}" for v in ("x", "l", "s", "nx", "nl")]
+                        ext=it.extract_position(["x", "loc"], new), lp=it.log_prob(new), extra=extra)
+        tag = re.sub(r"[^A-Za-z0-9]", "_", nm)
+        names = [f"{tag}_{v}" for v in ("x", "l", "s", "nx", "nl")]
         consts = [z3.Real(n) for n in names]
         sym = tuple(np.array(c, dtype=object).reshape(()) for c in consts)
         enc = chk.note_enc(Enc(f"{nm} laws", f, (0.1, 0.2, 1.5, 0.3, -0.4), sym, domain={names[2]: (0.5, 2.0)}))
@@ -228,7 +250,7 @@ def simple_interfaces(chk):
             return [s > 0], z3.And(cells(o["new"][0])[0] == nx, cells(o["new"][1])[0] == nl, cells(o["new"][2])[0] == s,
                                    cells(o["old"][0])[0] == x, cells(o["old"][1])[0] == l, cells(o["old"][2])[0] == s,
                                    cells(o["ext"]["x"])[0] == nx, cells(o["ext"]["loc"])[0] == nl, cells(o["lp"])[0] == want_lp,
-                                   *[cells(a)[0] == cells(b)[0] for a, b in zip(o["new"], o["again"])])
+                                   *[cells(a)[0] == cells(b)[0] for a, b in zip(o["new"], o["again"])], *[cells(a)[0] == 0 for a in o["extra"]])
         obs.append(Obligation(f"{nm}: put/get, untouched entries, input state not modified, log_prob of the updated state", [enc], g, signature=f"{nm}:laws"))
     return obs
 
@@ -261,7 +283,7 @@ def main():
                       "liesel.goose.interface.DictInterface / DataclassInterface / NamedTupleInterface"]
     chk.bounds += ["positions and input states symbolic reals (shapes of the model family); two consecutive calls on the used interface (earlier call arbitrary position/state)",
                    "vmap batch of 2"]
-    chk.enumerated += names + ["vmap on regression+report", "Dict/Dataclass/NamedTuple interface with a 3-field state"]
+    chk.enumerated += names + ["vmap on regression+report", "Dict/Dataclass/NamedTuple interface with a 3-field state", "dataclass state with an init=False field and a __post_init__ counter"]
     chk.assume("input states are coherent and complete (documented precondition of update_state): they are produced by update_state from arbitrary input values on a third interface instance",
                "eager = traced semantics (the jaxpr is what jit compiles); eager/jit compared concretely at one point per model", "real arithmetic")
     return chk.finish(technique=TECH)
